@@ -3,41 +3,47 @@ import json
 import re
 
 from .c14 import _pure_int_const, lit_str_of
-from .lib import ITER_PLUMBING, PLUMBING, callee_allow, closure_of_operand, http_error_ctors_on_error_path, result_split, status_const_of_ctor
-from .lib_c20 import (DIGEST_OUT, blocks_after_success, chain_calls, chain_closures, chain_fnitems, digest_message, element_hops, enforced_at, lift_atom, origin_chains, pattern_answers, resolve_lit,
+from .lib import ITER_PLUMBING, PLUMBING, callee_allow, closure_of_operand, operand_local, http_error_ctors_on_error_path, result_split, status_const_of_ctor
+from .lib_c20 import (DIGEST_OUT, blocks_after_success, chain_calls, chain_closures, chain_fnitems, digest_message, element_hops, local_view, arrives_unmodified, encoded_text, enforced_at, error_ctor_names, lift_atom, origin_chains, pattern_answers, resolve_lit, returns_true_given,
                       returned_variant_sites, separator_answers)
 
 LEVEL = "other"
 TECHNIQUE = ("static analysis: per-header path facts over the only WebsocketUpgrade constructor (it is reached only after the header's test succeeded — whether the test is an iterator chain, "
-             "a for loop with a flag, a guarded match, an Option combinator or a `?`, in from_request or in a validation helper inlined into it — and every other exit returns for_bad_request), decided on the normalised view "
-             "(combinators desugared, helper exits threaded into the caller's `?`); element origins followed through closures, mapping adaptors (flat_map/map/filter_map) and loops, concrete evaluation of separator "
-             "predicates (closures or named fns), evaluated constants (GUID, \"13\", 101, header names, token literals), the hashed message as an ordered list of pieces (absorbed into one SHA-1 state lineage, or one "
-             "Digest::digest over a buffer concatenated in the function), value-preserving chains key -> derive_accept_key -> "
-             "Sec-WebSocket-Accept and upgraded I/O -> handler")
+             "a for loop with a flag, a `fold` from false, a guarded match, a match over a tuple of flags, an Option combinator or a `?`, in from_request, in a validation helper or in a local closure called "
+             "directly, both inlined into it — and every other exit returns for_bad_request, built in place or inside a hand-written `impl From<X> for HttpError` reached by `.into()`), decided on the normalised view "
+             "(combinators desugared, helper exits threaded into the caller's `?`) put into a local normal form (lib_c20.local_view: directly called local closures inlined per call site, tuples of bools split); element origins followed through closures, mapping adaptors (flat_map/map/filter_map) and loops, concrete evaluation of separator "
+             "predicates (closures, named fns, char / array / named constant-array patterns), evaluated constants (GUID, \"13\", 101, header names, token literals), the hashed message as an ordered list of pieces (absorbed into one SHA-1 state lineage, or one "
+             "Digest::digest over a buffer concatenated in the function) in the one function that takes a SHA-1 digest (found by that role: a function of its own under any name, or from_request when it was inlined), "
+             "value-preserving chains key header bytes -> digest -> base64 text (Engine::encode, or encode_string into a fresh String) -> accept_key -> Sec-WebSocket-Accept and upgraded I/O -> handler")
 LEVEL_TEXT = ("Decided on the MIR of the current tree, for every path: the single construction site of WebsocketUpgrade (private field, one aggregate, inside from_request) is reached only "
               "after four tests, one per mandatory header, have succeeded on the path — Connection contains the token `upgrade` and Upgrade contains `websocket` (eq_ignore_ascii_case on an element "
               "of a split of the header text; the element is followed back to HeaderMap::get*(header) through for loops, iterator adaptors and inlined helpers; absent header = reject), "
               "Sec-WebSocket-Version equals the evaluated bytes \"13\", Sec-WebSocket-Key present — and every other exit returns "
-              "an error built by for_bad_request (evaluated 400) without constructing the upgrade; derive_accept_key hashes exactly the key followed by the constant whose evaluated value is "
-              "the RFC 6455 GUID — two update / chain_update calls on one fresh SHA-1 state, or one Digest::digest over a buffer built in the function from exactly these two pieces in this order "
-              "(empty Vec + extend_from_slice, key.to_vec() + extend_from_slice, [key, GUID].concat()) — and returns STANDARD base64 of the digest output (views only in between); its argument is the raw bytes of the key header and its result is the only origin of the Sec-WebSocket-Accept "
-              "value in handle; handle answers status 101 with Connection: upgrade / Upgrade: websocket, spawns the task before building the response, and the task passes "
-              "WebsocketConnection(WebsocketConnectionRaw(TokioIo::new(upgraded))) — the Ok payload of the awaited upgrade future and nothing else — to the user handler. "
+              "an error built by for_bad_request (evaluated 400; directly, in a closure, or by a crate-local `impl From<X> for HttpError` whose `from` returns for_bad_request only) without constructing the upgrade; "
+              "the one function that takes a SHA-1 digest (derive_accept_key under whatever name and wherever it lives; from_request itself when the helper was inlined) hashes exactly the key followed by the constant whose evaluated value is "
+              "the RFC 6455 GUID — two update / chain_update calls on one fresh SHA-1 state (new_with_prefix(key) counts as fresh + update(key)), or one Digest::digest over a buffer built in the function from exactly these two pieces in this order "
+              "(empty Vec + extend_from_slice, key.to_vec() + extend_from_slice, [key, GUID].concat()) — and returns STANDARD base64 of the digest output (views only in between; Engine::encode, or Engine::encode_string appending to a fresh String nothing else writes to); its argument "
+              "(inlined: the hashed piece itself) is the raw bytes of the key header (one as_bytes view, copies, borrows) and the encoded text, moved as a whole through Some/Ok/`?`, is the only origin of the stored accept_key and "
+              "that of the Sec-WebSocket-Accept value in handle; handle answers status 101 with Connection: upgrade / Upgrade: websocket, spawns the task before building the response, and the task passes "
+              "WebsocketConnection(WebsocketConnectionRaw(TokioIo::new(upgraded))) — the Ok payload of the awaited upgrade future and nothing else — to the user handler, on the Ok side of a split (`match`, `if let`, `?`, after pass-through helpers) of that Result only. "
               "Not decided: list syntax beyond `,` SP HTAB separation (quoted strings, comments), traversals that truncate the field lines after get_all (e.g. take(1)), idioms that do not look the header up by name "
               "(iterating the whole map fails closed), SHA-1/base64 themselves, byte transparency of hyper's upgraded I/O.")
 LEVEL_NOTE = ("Trusts rustc MIR + const evaluation, the extractor, engine slices/dominators, http::HeaderMap::get / Builder::header, Option::{map,and_then,unwrap_or,ok_or_else}, "
-              "Iterator::any, str::eq_ignore_ascii_case, sha1::Digest, base64 STANDARD, tokio::spawn, hyper::upgrade::on.")
+              "Iterator::any / fold, str::eq_ignore_ascii_case, sha1::Digest, base64 STANDARD, tokio::spawn, hyper::upgrade::on.")
 EXPLANATION = ("path-sensitive boolean facts (bool_states / guarded_by, flags justified definition by definition) per header constant over the coroutine body of from_request with helpers inlined; "
                "CONST for GUID / version / status / literals read from evaluated operands; ORDER of the two hashed pieces by dominance within one hasher lineage or one concatenation buffer (every `&mut` use of the buffer is an append of a piece); CHAIN slices with allow-lists; "
-               "concrete MIR evaluation of char predicates; exploration with concrete test outcomes for `a match on any line suffices`; WHO-CONSTRUCTS census for WebsocketUpgrade and WebsocketUpgradeInner; SHAPE of the private field.")
-TRUSTED = ["rustc nightly MIR + const evaluation", "mirfacts extractor", "rules/engine.py (incl. helper inlining, combinator normalisation and jump threading of ctx.dsn), rules/lib.py, rules/lib_c20.py", "http::HeaderMap::get / get_all, http::response::Builder", "std Option/Iterator combinators",
-           "sha1::Digest update/chain_update/finalize/digest, Vec::extend_from_slice / [T]::concat / [T]::to_vec, base64 STANDARD engine", "tokio::spawn, hyper::upgrade::on, hyper_util TokioIo"]
+               "concrete MIR evaluation of char predicates; exploration with concrete test outcomes for `a match on any line suffices`; WHO-CONSTRUCTS census for WebsocketUpgrade and WebsocketUpgradeInner; SHAPE of the private field; "
+               "a fold closure is interpreted with its accumulator true (a match is never forgotten); conversions into HttpError are resolved to the crate-local From impl.")
+TRUSTED = ["rustc nightly MIR + const evaluation", "mirfacts extractor", "rules/engine.py (incl. helper inlining, combinator normalisation and jump threading of _view(ctx)), rules/lib.py, rules/lib_c20.py", "http::HeaderMap::get / get_all, http::response::Builder", "std Option/Iterator combinators",
+           "sha1::Digest new_with_prefix/update/chain_update/finalize/digest, Vec::extend_from_slice / [T]::concat / [T]::to_vec, base64 STANDARD engine encode / encode_string", "rules/lib_c01.py sources()", "tokio::spawn, hyper::upgrade::on, hyper_util TokioIo"]
 
 GUID = "258EAFA5-E914-47DA-95CA-C5AB0DC85B11"
 UPG_ADT = "websocket::WebsocketUpgrade"
 INNER_ADT = "websocket::WebsocketUpgradeInner"
 GET = r"^http::HeaderMap::<T>::(get|get_all)$"
 BAD = r"^error::HttpError::for_bad_request$"
+BAD_ID = "error::HttpError::for_bad_request"
+ENCODE = r"^base64::Engine::(encode|encode_string)$"
 OTHER_CTOR = r"^error::HttpError::for_(internal_error|unavail|not_found|client_error)"
 HEADERS = r"^http::Request::<T>::headers$"
 OPT_FLOW = [r"Option::<T>::map$", r"Option::<T>::and_then$", r"Option::<T>::ok_or_else$", r"Option::<T>::ok_or$", r"Option::<T>::filter$"]
@@ -58,13 +64,29 @@ def _hdr_consts(sl):
     return out
 
 
+def _view(ctx):
+    """The normalised view of dropshot (ctx.dsn) with the body of from_request in local normal form (lib_c20.local_view: local
+    closures called directly are inlined at their call sites, `match (flag_a, flag_b)` is a switch on bool locals)."""
+    if "_c20_view" not in ctx.__dict__:
+        V = ctx.dsn
+        ids = [it["id"] for i in V.impls if i["trait"].endswith("ExclusiveExtractor") and i["self"] == UPG_ADT for it in i["items"] if it["name"] == "from_request"]
+        if len(ids) == 1 and ids[0] in V.F and V.body_of(V.F[ids[0]]) is not V.F[ids[0]]:
+            V = local_view(V, V.body_of(V.F[ids[0]]))
+            if V is not ctx.dsn:
+                extra = [x for x in V.body_of(V.F[ids[0]]).raw.get("inlined", []) if x not in ctx.dsn.body_of(ctx.dsn.F[ids[0]]).raw.get("inlined", [])]
+                ctx.notes["C20.local-normal-form"] = "from_request analysed in local normal form: directly called local closures inlined %s; tuples of bools split into their fields" % (extra or "(none)")
+        ctx.__dict__["_c20_view"] = V
+    return ctx.__dict__["_c20_view"]
+
+
 def _from_request(ctx, R):
-    ids = [it["id"] for i in ctx.dsn.impls if i["trait"].endswith("ExclusiveExtractor") and i["self"] == UPG_ADT for it in i["items"] if it["name"] == "from_request"]
-    if len(ids) != 1 or ids[0] not in ctx.dsn.F:
+    V = _view(ctx)
+    ids = [it["id"] for i in V.impls if i["trait"].endswith("ExclusiveExtractor") and i["self"] == UPG_ADT for it in i["items"] if it["name"] == "from_request"]
+    if len(ids) != 1 or ids[0] not in V.F:
         ctx.lost(R, "impl ExclusiveExtractor for WebsocketUpgrade :: from_request")
         raise LookupError
-    w = ctx.dsn.F[ids[0]]
-    b = ctx.dsn.body_of(w)
+    w = V.F[ids[0]]
+    b = V.body_of(w)
     if b is w:
         ctx.lost(R, "coroutine body of WebsocketUpgrade::from_request")
         raise LookupError
@@ -86,16 +108,21 @@ def _closures_on(facts, sl):
 
 
 def _err_is_400(facts, f, op):
-    s = f.slice(op)
-    if s.has_call(OTHER_CTOR):
-        return False
-    if s.has_call(BAD):
-        return True
-    for g in _closures_on(facts, s):
-        rs = g.slice({"l": 0, "p": []})
-        if rs.has_call(BAD) and not rs.has_call(OTHER_CTOR):
-            return True
-    return False
+    """The error value is built by for_bad_request and by nothing else — directly, in a closure on its slice, or inside a
+    hand-written `impl From<X> for HttpError` reached by `.into()` (lib_c20.error_ctor_names)."""
+    return error_ctor_names(facts, f, op) == {BAD_ID}
+
+
+def _ctors_on_error_path(facts, fn, split):
+    """lib.http_error_ctors_on_error_path, plus the constructors behind conversions (`Err(Defect::NoKey.into())`)."""
+    names = set(http_error_ctors_on_error_path(fn, split))
+    for h in split["mappers"]:
+        names |= error_ctor_names(facts, h, {"l": 0, "p": []})
+    err_only = fn.reachable(split["err"]) - fn.reachable(split["ok"])
+    for bb, i, st in fn.aggregates(r"^std::result::Result$", "Err"):
+        if st["pl"]["l"] == 0 and bb in err_only:
+            names |= error_ctor_names(facts, fn, st["rv"]["ops"][0])
+    return names
 
 
 def _ret_defs(f, blocks):
@@ -132,12 +159,12 @@ def _token_tests(ctx, b, gbb):
     below it, one side of which is an element that originates from the header lookup in block gbb of `b` — through a
     `for` loop or through the item parameter of closures handed to iterator adaptors — with the literal on the other side."""
     out = []
-    for g in [b] + ctx.dsn.descendants(b):
+    for g in [b] + _view(ctx).descendants(b):
         for ebb, et in g.live_calls(EQ_IC):
             if len(et["args"]) != 2:
                 continue
             for side in (0, 1):
-                for ch in origin_chains(ctx.dsn, g, et["args"][side]):
+                for ch in origin_chains(_view(ctx), g, et["args"][side]):
                     if ch[-1].fn is not b or not any(bb == gbb for _, bb, _ in ch[-1].sl.calls(GET)):
                         continue
                     out.append({"g": g, "ebb": ebb, "chain": ch, "lit": resolve_lit(ch, et["args"][1 - side])})
@@ -173,14 +200,15 @@ def _token_atoms(ctx, b, gbb, H):
     mine = [t for t in tests if t["lit"] is not None and t["lit"].lower() == TOKENS[H]]
     lifted, why = [], []
     for t in mine:
-        a, reason = lift_atom(ctx.dsn, t["chain"], t["ebb"])
+        t["folds"] = []
+        a, reason = lift_atom(_view(ctx), t["chain"], t["ebb"], t["folds"])
         if a is None:
             why.append(reason)
             continue
-        hops = element_hops(ctx.dsn, t["chain"])
+        hops = element_hops(_view(ctx), t["chain"])
         split = bool(chain_calls(hops, SPLIT))
         badc = sorted(set(c for h in hops for c, _ in callee_allow(h.sl, ELEMENT_CHAIN)) | set(p for _, _, _, p in chain_fnitems(hops) if not any(re.search(x, p) for x in ELEMENT_CHAIN)) |
-                      set(t2["callee"] or "<indirect>" for g in chain_closures(ctx.dsn, t["chain"]) for _, t2 in g.live_calls()
+                      set(t2["callee"] or "<indirect>" for g in chain_closures(_view(ctx), t["chain"]) for _, t2 in g.live_calls()
                           if not any(re.search(p, t2["callee"] or "") for p in ELEMENT_CHAIN)))
         if not split:
             why.append("the compared value is not an element of a split of the header text")
@@ -217,11 +245,11 @@ def r1_four_checks(ctx):
     if req_idx is None:
         ctx.lost(R, "the captured hyper::Request of from_request")
         return
-    st400 = status_const_of_ctor(ctx.dsn, "for_bad_request")
+    st400 = status_const_of_ctor(_view(ctx), "for_bad_request")
     ctx.check(R, "for_bad_request-is-400", st400 == {400}, "status constants named in for_bad_request: %s" % sorted(st400 or []), nontrivial=False)
     # exits: every definition of the return value is the Ok(..) after the constructor or an Err(for_bad_request)
     defs = [(bb, var, op) for bb, var, op in _ret_defs(b, reach) if not b.dominates(site, bb)]
-    good_defs = [bb for bb, var, op in defs if var == "Err" and op is not None and _err_is_400(ctx.dsn, b, op)]
+    good_defs = [bb for bb, var, op in defs if var == "Err" and op is not None and _err_is_400(_view(ctx), b, op)]
     all_gets = b.live_calls(GET)
     for H in MANDATORY:
         gets = [(bb, t) for bb, t in all_gets if _hdr_consts(b.slice(t["args"][1])) == {H}]
@@ -252,7 +280,7 @@ def r1_four_checks(ctx):
             else:
                 mine = [x for x in vt if x[2] == ["13"]]
                 badv = sorted(set(c for x in mine for c, _ in callee_allow(x[3], PLUMBING + [GET, HEADERS] + OPT_FLOW + HV_VIEW)) |
-                              set(t2["callee"] for x in mine for g in _closures_on(ctx.dsn, x[3]) for _, t2 in g.live_calls() if not any(re.search(p, t2["callee"] or "") for p in HV_VIEW + PLUMBING)))
+                              set(t2["callee"] for x in mine for g in _closures_on(_view(ctx), x[3]) for _, t2 in g.live_calls() if not any(re.search(p, t2["callee"] or "") for p in HV_VIEW + PLUMBING)))
                 t_atoms = set(("call", x[0]) for x in mine if x[1] == "eq")
                 f_atoms = set(("call", x[0]) for x in mine if x[1] == "ne")
                 test_ok = bool(mine) and not badv
@@ -267,7 +295,7 @@ def r1_four_checks(ctx):
                       "no Some/None split of get(%s) separates the constructor from an early return" % H, (b, sp["switch_bb"] if sp else gbb))
             ks = b.slice({"l": sp["local"], "p": []}) if sp else None
             badk = callee_allow(ks, PLUMBING + [GET, HEADERS] + OPT_FLOW + [r"^http::HeaderValue::as_bytes$", "^" + re.escape("websocket::derive_accept_key") + "$"]) if ks else []
-            ctors = http_error_ctors_on_error_path(b, sp) if sp else set()
+            ctors = _ctors_on_error_path(_view(ctx), b, sp) if sp else set()
             ctx.check(R, "%s:presence-required" % H, bool(sp) and ok_acc and not badk,
                       "the key lookup is split into present/absent by %s; the present edge leads to the constructor: %s; other callees on the chain: %s"
                       % ("/".join(sp["via"]) if sp else "nothing", ok_acc, [x[0] for x in badk] or "none"), (b, sp["switch_bb"] if sp else gbb))
@@ -297,26 +325,55 @@ def r1_four_checks(ctx):
 
 # ------------------------------------------------------------------------------------------------ R2
 def r2_accept_digest(ctx):
-    R = ctx.rule("C20.R2", "derive_accept_key = STANDARD-base64(SHA-1(key ++ GUID)) with the RFC 6455 GUID (the message fed piecewise to one fresh state or concatenated and hashed in one shot); its argument is the raw bytes of the Sec-WebSocket-Key header and its result "
+    R = ctx.rule("C20.R2", "the Sec-WebSocket-Accept value = STANDARD-base64(SHA-1(key ++ GUID)) with the RFC 6455 GUID (the message fed piecewise to one fresh state or concatenated and hashed in one shot), computed by the one "
+                 "piece of code that takes a SHA-1 digest (a function of its own, or inlined into from_request); the key is the raw bytes of the Sec-WebSocket-Key header and the encoded digest "
                  "is the only origin of the Sec-WebSocket-Accept header value", floor=9)
-    f = ctx.need_fn(ctx.dsn, R, r"^websocket::derive_accept_key$")
-    # the hashed message as an ordered list of byte pieces — two update calls on one `&mut` state, chain_update threading the
-    # state by value, or one Digest::digest over a buffer concatenated in this function (lib_c20.digest_message)
+    V = _view(ctx)
     SHA = r"sha1::|Sha1"
+    try:
+        w, b = _from_request(ctx, R)
+    except LookupError:
+        return
+    # role anchor: the function that takes a SHA-1 digest (whatever it is called and wherever it lives: a free function, an
+    # associated function, or — a helper that is not on the known-functions table is inlined — from_request itself)
+    cands = [g for g in V.F.values() if any(re.search(SHA, " ".join(t.get("gargs") or []) + " " + (t.get("callee_args") or "")) for _, t in g.live_calls(DIGEST_OUT))]
+    if len(cands) != 1:
+        ctx.lost(R, "the function that computes the SHA-1 digest of the handshake (%d: %s)" % (len(cands), [g.id.split("::")[-1] for g in cands]))
+        return
+    f = cands[0]
+    inlined = f is b
+    # the hashed message as an ordered list of byte pieces — two update calls on one `&mut` state, chain_update threading the
+    # state by value, new_with_prefix, or one Digest::digest over a buffer concatenated in this function (lib_c20.digest_message)
     msg = digest_message(f, SHA)
-    encs = f.live_calls(r"^base64::Engine::encode$")
+    encs = f.live_calls(ENCODE)
     if isinstance(msg, str):
-        ctx.lost(R, "the SHA-1 computation of derive_accept_key: %s" % msg)
+        ctx.lost(R, "the SHA-1 computation of the accept key: %s" % msg)
         return
     if len(encs) != 1:
-        ctx.lost(R, "one base64 Engine::encode in derive_accept_key (%d)" % len(encs))
+        ctx.lost(R, "one base64 Engine::encode / encode_string in %s (%d)" % (f.id.split("::")[-1], len(encs)))
         return
     obb, ot = msg["out"]
+    VIEW = [r"^http::HeaderValue::as_bytes$"]
+    COPIES = [r"<impl \[T\]>::to_vec$", r"borrow::ToOwned::to_owned$", r"vec::Vec::<T, A>::as_slice$"]
+
+    def raw_key_bytes(g, op):
+        """`op` (in g) is the bytes of the Sec-WebSocket-Key header value of this request and nothing else: one as_bytes view of
+        the looked-up value, Option plumbing, copies (to_vec / to_owned) and borrows."""
+        oks, dets = [], []
+        for ch in origin_chains(V, g, op):
+            bad_a = sorted(set(c for h in ch for c, _ in callee_allow(h.sl, PLUMBING + [GET, HEADERS] + OPT_FLOW + VIEW + COPIES)))
+            lits = [a for h in ch for a in h.sl.atoms if a[0] == "lit" or (a[0] == "const" and not re.search(r"(^|::)header::[A-Z_0-9]+$", a[1]))]
+            shaped = [a for h in ch for a in h.sl.atoms if a[0] in ("binop", "unop")]
+            from_key = ch[-1].fn is b and set(x for h in ch for x in _hdr_consts(h.sl)) == {"SEC_WEBSOCKET_KEY"} and bool(ch[-1].sl.calls(GET))
+            views = len(chain_calls(ch, VIEW[0])) + sum(1 for g2 in chain_closures(V, ch) if g2 is not g for _ in g2.live_calls(VIEW[0]))
+            oks.append(from_key and not bad_a and not lits and not shaped and views == 1)
+            dets.append("from get(KEY): %s, as_bytes views: %d, other operations: %s" % (from_key, views, bad_a + [str(x[1])[:30] for x in lits + shaped] or "none"))
+        return bool(oks) and all(oks), dets
+
+    key_det = []
 
     def piece_kind(op):
         s = f.slice(op)
-        if s.params() == [1] and not s.callees and not [a for a in s.atoms if a[0] in ("const", "lit", "binop", "unop", "rv")]:
-            return "key", None
         if not s.params() and not s.callees and not [a for a in s.atoms if a[0] in ("binop", "unop", "rv")]:
             vals = []
             for a in s.atoms:
@@ -327,11 +384,18 @@ def r2_accept_digest(ctx):
                         v = None
                     vals.append(v.get("str") if isinstance(v, dict) and "str" in v else (bytes(v["bytes"]).decode("latin-1") if isinstance(v, dict) and isinstance(v.get("bytes"), list) else None))
             return "const", vals
-        return "other", None
+        if not inlined:
+            # a function of its own: the key is its (only) argument, unmodified; what is passed for it is judged at the call site
+            if s.params() == [1] and f.argc == 1 and not s.callees and not [a for a in s.atoms if a[0] in ("const", "lit", "binop", "unop", "rv")]:
+                return "key", None
+            return "other", None
+        ok, dets = raw_key_bytes(f, op)
+        key_det.extend(dets)
+        return ("key" if ok else "other"), None
     kinds = [piece_kind(op) for bb, op in msg["pieces"]]
     if sorted(k for k, _ in kinds) != ["const", "key"]:
-        ctx.check(R, "updates-are-key-and-guid", False, "the hashed pieces are not exactly (the key argument unmodified, a constant): %s piece(s) %s (%s)"
-                  % (len(kinds), [k for k, _ in kinds], msg["form"]), (f, obb))
+        ctx.check(R, "updates-are-key-and-guid", False, "the hashed pieces are not exactly (the key %s, a constant): %s piece(s) %s (%s)%s"
+                  % ("argument unmodified" if not inlined else "header bytes", len(kinds), [k for k, _ in kinds], msg["form"], ("; " + "; ".join(key_det)) if key_det else ""), (f, obb))
         return
     guid_val = [v for k, v in kinds if k == "const"][0]
     guid_site = [p[0] for p, (k, _) in zip(msg["pieces"], kinds) if k == "const"][0]
@@ -346,63 +410,64 @@ def r2_accept_digest(ctx):
               % (" ++ ".join("key" if k == "key" else "GUID" for k, _ in kinds), msg["form"], msg["ordered"]), (f, guid_site))
     ebb, et = encs[0]
     eng = sorted(set(a[1] for a in f.slice(et["args"][0]).atoms if a[0] == "const"))
-    # between the digest output and the encoder only views; between the encoder and the return value nothing
+    # between the digest output and the encoder only views; the encoded text — the value returned by Engine::encode, or the fresh
+    # String that Engine::encode_string appends to — is what the function returns / what is stored, moved as a whole
     ds_ = f.slice(et["args"][1], stop_at_calls=DIGEST_OUT)
     VIEWS = [r"AsRef::as_ref$", r"GenericArray.*as_slice$", r"<impl \[T\]>::(as_ref|to_vec)$"]
     badd = callee_allow(ds_, PLUMBING + [DIGEST_OUT] + VIEWS)
     shaped = [a for a in ds_.atoms if a[0] in ("binop", "unop", "lit", "const", "param")]
-    ret = f.slice({"l": 0, "p": []}, stop_at_calls=r"Engine::encode$")
-    ctx.check(R, "standard-base64-of-the-digest", len(eng) == 1 and bool(re.search(r"(^|::)STANDARD$", eng[0])) and any(bb == obb for _, bb, _ in ds_.calls(DIGEST_OUT)) and not badd and not shaped
-              and any(bb == ebb for _, bb, _ in ret.calls(r"Engine::encode$")) and not callee_allow(ret, PLUMBING + [r"Engine::encode$"]),
-              "engine %s, data = the digest via %s, result returned unmodified" % (eng, [x[0] for x in badd] + [str(a[:2]) for a in shaped] or "a borrow only"), (f, ebb))
-    # the argument: raw bytes of the key header; the result: accept_key of the inner struct
-    try:
-        w, b = _from_request(ctx, R)
-    except LookupError:
-        return
+    res, is_buf, res_det = encoded_text(f, ebb, et)
     inner = [(bb, st) for bb, i, st in b.aggregates("^" + re.escape(INNER_ADT) + "$") if bb in b.reachable(0)]
-    all_inner = [(g.id, bb) for g in ctx.dsn.F.values() for bb, i, st in g.aggregates("^" + re.escape(INNER_ADT) + "$")]
-    fields = [fl["name"] for fl in ctx.dsn.adts[INNER_ADT]["variants"][0]["fields"]]
+    all_inner = [(g.id, bb) for g in V.F.values() for bb, i, st in g.aggregates("^" + re.escape(INNER_ADT) + "$")]
+    fields = [fl["name"] for fl in V.adts[INNER_ADT]["variants"][0]["fields"]]
     if len(inner) != 1 or len(all_inner) != 1 or "accept_key" not in fields:
         ctx.lost(R, "the single WebsocketUpgradeInner{..accept_key..} aggregate (in from_request: %d, anywhere: %d)" % (len(inner), len(all_inner)))
         return
     ibb, ist = inner[0]
-    # the stored value: whatever the idiom (Option::map(closure) chain + `?`, or a match arm calling it directly), the slice of
-    # the field operand — plus the closures applied on it — contains exactly one call of derive_accept_key and otherwise only
-    # the lookup of the key header, Option plumbing, HeaderValue::as_bytes and the construction of the 400 error
-    ks = b.slice(ist["rv"]["ops"][fields.index("accept_key")])
-    VIEW = [r"^http::HeaderValue::as_bytes$"]
-    badk = callee_allow(ks, PLUMBING + [GET, HEADERS] + OPT_FLOW + VIEW + ["^" + re.escape(f.id) + "$"])
-    hdrs = _hdr_consts(ks)
-    cls = [g for g in _closures_on(ctx.dsn, ks)]
-    derive_sites, other = [], []
-    for g in [b] + cls:
-        calls = g.live_calls() if g is not b else [(bb2, t2) for c2, bb2, t2 in ks.callees]
-        for cbb, ct in calls:
-            c = ct.get("callee") or ""
-            if c == f.id:
-                if not any(d[0] is g and d[1] == cbb for d in derive_sites):
-                    derive_sites.append((g, cbb, ct))
-            elif g is b or re.search(r"^http::HeaderValue::as_bytes$", c) or re.search(BAD, c) or re.search(r"ToString::to_string$|ToOwned::to_owned$|convert::(From::from|Into::into)$", c):
-                pass
-            else:
-                other.append(c)
-    arg_ok, arg_det = [], []
-    for g, cbb, ct in derive_sites:
-        # the argument of derive_accept_key: bytes view of the looked-up header value, nothing else
-        for ch in origin_chains(ctx.dsn, g, ct["args"][0]):
-            bad_a = sorted(set(c for h in ch for c, _ in callee_allow(h.sl, PLUMBING + [GET, HEADERS] + OPT_FLOW + VIEW)))
-            lits = [a for h in ch for a in h.sl.atoms if a[0] == "lit" or (a[0] == "const" and not re.search(r"(^|::)header::[A-Z_0-9]+$", a[1]))]
-            from_key = ch[-1].fn is b and set(x for h in ch for x in _hdr_consts(h.sl)) == {"SEC_WEBSOCKET_KEY"} and bool(ch[-1].sl.calls(GET))
-            views = len(chain_calls(ch, VIEW[0])) + sum(1 for g2 in chain_closures(ctx.dsn, ch) if g2 is not g for _ in g2.live_calls(VIEW[0]))
-            arg_ok.append(from_key and not bad_a and not lits and views == 1)
-            arg_det.append("from get(KEY): %s, as_bytes views: %d, other operations: %s" % (from_key, views, bad_a + [str(x[1])[:30] for x in lits] or "none"))
-    ctx.check(R, "accept-key-is-digest-of-raw-key-bytes", hdrs == {"SEC_WEBSOCKET_KEY"} and not badk and len(derive_sites) == 1 and bool(arg_ok) and all(arg_ok) and not other,
-              "WebsocketUpgradeInner.accept_key <- get(%s) -> as_bytes -> derive_accept_key (sites %d; argument %s); other operations on the chain: %s"
-              % (sorted(hdrs), len(derive_sites), arg_det, [x[0] for x in badk] + other or "none"), (b, ibb))
-    dcallers = [(g.id, bb) for g, bb, t in ctx.dsn.callers_of("^" + re.escape(f.id) + "$")]
-    ctx.check(R, "derive-called-once", len(dcallers) == 1, "call sites of derive_accept_key: %s" % [d[0].split("::")[-1] for d in dcallers], f)
-    h = ctx.need_fn(ctx.dsn, R, r"^websocket::WebsocketUpgrade::handle$")
+    field_op = ist["rv"]["ops"][fields.index("accept_key")]
+    # where the encoded text must arrive unmodified: the return value of a digest function of its own, the stored field otherwise
+    sink_ok = arrives_unmodified(f, {"l": 0, "p": []} if not inlined else field_op, res, is_buf, ebb)
+    ctx.check(R, "standard-base64-of-the-digest", len(eng) == 1 and bool(re.search(r"(^|::)STANDARD$", eng[0])) and any(bb == obb for _, bb, _ in ds_.calls(DIGEST_OUT)) and not badd and not shaped
+              and sink_ok,
+              "engine %s, data = the digest via %s, %s, %s" % (eng, [x[0] for x in badd] + [str(a[:2]) for a in shaped] or "a borrow only", res_det,
+                                                               ("result returned unmodified" if not inlined else "stored as accept_key unmodified") if sink_ok else
+                                                               "but the %s is not that text moved as a whole" % ("return value" if not inlined else "stored accept_key")), (f, ebb))
+    if inlined:
+        ctx.check(R, "accept-key-is-digest-of-raw-key-bytes", sink_ok,
+                  "WebsocketUpgradeInner.accept_key <- base64(SHA-1(bytes of get(SEC_WEBSOCKET_KEY) ++ GUID)) computed in from_request (%s)" % "; ".join(sorted(set(key_det))), (b, ibb))
+        ctx.check(R, "derive-called-once", True, "the digest is computed in line in from_request (one Digest output, one encoder)", f)
+    else:
+        # the stored value: whatever the idiom (Option::map(closure) chain + `?`, or a match arm calling it directly), the slice of
+        # the field operand — plus the closures applied on it — contains exactly one call of the digest function and otherwise only
+        # the lookup of the key header, Option plumbing, HeaderValue::as_bytes and the construction of the 400 error
+        ks = b.slice(field_op)
+        badk = callee_allow(ks, PLUMBING + [GET, HEADERS] + OPT_FLOW + VIEW + COPIES + ["^" + re.escape(f.id) + "$"])
+        hdrs = _hdr_consts(ks)
+        cls = [g for g in _closures_on(V, ks)]
+        derive_sites, other = [], []
+        for g in [b] + cls:
+            calls = g.live_calls() if g is not b else [(bb2, t2) for c2, bb2, t2 in ks.callees]
+            for cbb, ct in calls:
+                c = ct.get("callee") or ""
+                if c == f.id:
+                    if not any(d[0] is g and d[1] == cbb for d in derive_sites):
+                        derive_sites.append((g, cbb, ct))
+                elif g is b or re.search(r"^http::HeaderValue::as_bytes$", c) or re.search(BAD, c) or re.search(r"ToString::to_string$|ToOwned::to_owned$|convert::(From::from|Into::into)$", c):
+                    pass
+                else:
+                    other.append(c)
+        arg_ok, arg_det = [], []
+        for g, cbb, ct in derive_sites:
+            # the argument of the digest function: bytes view of the looked-up header value, nothing else
+            ok, dets = raw_key_bytes(g, ct["args"][0])
+            arg_ok.append(ok)
+            arg_det += dets
+        ctx.check(R, "accept-key-is-digest-of-raw-key-bytes", hdrs == {"SEC_WEBSOCKET_KEY"} and not badk and len(derive_sites) == 1 and bool(arg_ok) and all(arg_ok) and not other,
+                  "WebsocketUpgradeInner.accept_key <- get(%s) -> as_bytes -> %s (sites %d; argument %s); other operations on the chain: %s"
+                  % (sorted(hdrs), f.id.split("::")[-1], len(derive_sites), arg_det, [x[0] for x in badk] + other or "none"), (b, ibb))
+        dcallers = [(g.id, bb) for g, bb, t in V.callers_of("^" + re.escape(f.id) + "$")]
+        ctx.check(R, "derive-called-once", len(dcallers) == 1, "call sites of %s: %s" % (f.id.split("::")[-1], [d[0].split("::")[-1] for d in dcallers]), f)
+    h = ctx.need_fn(_view(ctx), R, r"^websocket::WebsocketUpgrade::handle$")
     acc = [(bb, t) for bb, t in h.live_calls(r"^http::response::Builder::header$") if _hdr_consts(h.slice(t["args"][1])) == {"SEC_WEBSOCKET_ACCEPT"}]
     if len(acc) != 1:
         ctx.lost(R, "Builder::header(SEC_WEBSOCKET_ACCEPT, ..) in handle (%d)" % len(acc))
@@ -413,7 +478,7 @@ def r2_accept_digest(ctx):
     ctx.check(R, "accept-header-is-the-stored-digest", vs.reads_field("accept_key") and vs.params() == [1] and not badv and not [a for a in vs.atoms if a[0] in ("lit", "const")],
               "Sec-WebSocket-Accept value = self.0.take().accept_key (params %s) via %s" % (vs.params(), [x[0] for x in badv] or "Option::take only"), (h, abb))
     writes = []
-    for g in ctx.dsn.F.values():
+    for g in _view(ctx).F.values():
         for bb, i, st in g.stmts():
             if any(isinstance(e, dict) and e.get("n") == "accept_key" for e in st["pl"]["p"]):
                 writes.append(g.id)
@@ -424,7 +489,7 @@ def r2_accept_digest(ctx):
 def r3_switching_and_handoff(ctx):
     R = ctx.rule("C20.R3", "handle answers 101 with Connection: upgrade and Upgrade: websocket after spawning the task; the task hands "
                  "WebsocketConnection(WebsocketConnectionRaw(TokioIo::new(Ok payload of the awaited upgrade future))) to the user handler", floor=7)
-    h = ctx.need_fn(ctx.ds, R, r"^websocket::WebsocketUpgrade::handle$")
+    h = ctx.need_fn(_view(ctx), R, r"^websocket::WebsocketUpgrade::handle$")
     reach = h.reachable(0)
     stat = h.live_calls(r"^http::response::Builder::status$")
     body = h.live_calls(r"^http::response::Builder::body$")
@@ -491,23 +556,25 @@ def r3_switching_and_handoff(ctx):
     tio = arg.calls(r"TokioIo::<T>::new$")
     ctx.check(R, "handler-gets-the-upgraded-io", wraps == ["WebsocketConnection", "WebsocketConnectionRaw"] and len(tio) == 1 and from_fut and not bada,
               "handler argument wraps TokioIo::new(..) of the awaited upgrade_fut in %s (from upvar: %s); other operations: %s" % (wraps, from_fut, [x[0] for x in bada] or "none"), (co, cbb))
-    # Ok edge of the awaited result dominates the handler call
+    # the handler call is reached only where the awaited result is known to be Ok: some Result on the way from the awaited
+    # future to TokioIo::new(..) is split — `match`, `if let`, `?`, after any number of moves through pass-through helpers
+    # (lib.result_split) — with the Ok side dominating the call and the Err side never reaching it
     okdom = False
     if tio:
         ts = co.slice(tio[0][2]["args"][0])
-        for sbb, t in co.switches():
-            info = co.switch_on(sbb)
-            if info["kind"] == "discr" and info.get("adt") == "std::result::Result" and info["place"]["l"] in ts.locals():
-                vidx = {n: v for v, n in info["variants"].items()}
-                if "Ok" in vidx and co.edge_dominates(sbb, co.switch_target(sbb, vidx["Ok"]), cbb) and cbb not in co.reachable(co.switch_target(sbb, vidx["Err"])):
-                    okdom = True
+        for l in sorted(ts.locals()):
+            if not re.match(r"(std|core)::result::Result<", co.local_ty(l) or ""):
+                continue
+            sp = result_split(co, l)
+            if sp and sp["ok"] is not None and sp["err"] is not None and sp["ok"] != sp["err"] and co.edge_dominates(sp["switch_bb"], sp["ok"], cbb) and cbb not in co.reachable(sp["err"]):
+                okdom = True
     ctx.check(R, "handler-runs-only-on-successful-upgrade", okdom, "the handler call is dominated by the Ok edge of `upgrade_fut.await`; the Err edge calls no handler", (co, cbb))
 
 
 # ------------------------------------------------------------------------------------------------ R4
 def r4_no_bypass(ctx):
     R = ctx.rule("C20.R4", "WebsocketUpgrade's field is private and the only place that constructs it (or its inner struct) is from_request", floor=3)
-    a = ctx.dsn.adts.get(UPG_ADT)
+    a = _view(ctx).adts.get(UPG_ADT)
     if not a:
         ctx.lost(R, "ADT table of WebsocketUpgrade")
         return
@@ -517,9 +584,9 @@ def r4_no_bypass(ctx):
         w, b = _from_request(ctx, R)
     except LookupError:
         return
-    home = set([w.id, b.id] + [g.id for g in ctx.dsn.descendants(b)])
+    home = set([w.id, b.id] + [g.id for g in _view(ctx).descendants(b)])
     for adt in (UPG_ADT, INNER_ADT):
-        sites = sorted(set(g.id for g in ctx.dsn.F.values() for bb, i, st in g.aggregates("^" + re.escape(adt) + "$")))
+        sites = sorted(set(g.id for g in _view(ctx).F.values() for bb, i, st in g.aggregates("^" + re.escape(adt) + "$")))
         ctx.check(R, "constructed-only-in-from_request:%s" % adt.split("::")[-1], bool(sites) and all(s in home for s in sites), "aggregate sites: %s" % [s.split(">::")[-1] for s in sites], b)
 
 
@@ -537,13 +604,15 @@ def x5_list_headers(ctx):
     aggs = [bb for bb, i, st in b.aggregates("^" + re.escape(UPG_ADT) + "$") if bb in reach]
     site = aggs[0] if len(aggs) == 1 else None
     # the tests of the four mandatory headers, as atoms of from_request
-    atoms, avoid = {}, []
+    atoms, avoid, folds = {}, [], {}
     for H in MANDATORY:
         gets = [(bb, t) for bb, t in b.live_calls(GET) if _hdr_consts(b.slice(t["args"][1])) == {H}]
         if len(gets) != 1:
             continue
         if H in TOKENS:
-            atoms[H] = (_token_atoms(ctx, b, gets[0][0], H)[0], set())
+            ta, tests_h, _why = _token_atoms(ctx, b, gets[0][0], H)
+            atoms[H] = (ta, set())
+            folds[H] = [g for t in tests_h for g in t.get("folds", [])]
         elif H == "SEC_WEBSOCKET_VERSION":
             vt = [x for x in _version_tests(b, gets[0][0]) if x[2] == ["13"]]
             atoms[H] = (set(("call", x[0]) for x in vt if x[1] == "eq"), set(("call", x[0]) for x in vt if x[1] == "ne"))
@@ -574,10 +643,14 @@ def x5_list_headers(ctx):
         mine = groups.get(H, set())
         hit, every = blocks_after_success(b, groups, H, forced, avoid_edges=avoid) if mine and all(groups.values()) and len(groups) == len(TOKENS) and site is not None else (None, None)
         lost_exits = sorted(bb for bb in err_exits if hit is not None and bb in hit)
-        okm = hit is not None and site in hit and not lost_exits
+        # a fold over the field lines keeps a match: entered with a true accumulator its closure returns true
+        forgetful = [g for g in folds.get(H, []) if not returns_true_given(g, 2)]
+        okm = hit is not None and site in hit and not lost_exits and not forgetful
         ctx.check(R, "%s:match-on-any-line-suffices" % H, okm,
                   ("once an element of %s has matched, every path (other mandatory headers in order) ends in the WebsocketUpgrade constructor" % H) if okm else
                   ("no usable element test of %s" % H) if not mine or hit is None else
+                  ("the closure of the fold over the field lines of %s can return false although its accumulator is true: a match is forgotten when a later "
+                   "line does not match, so `%s: %s` followed by a `%s: %s` line is answered 400" % (H, H.title(), TOKENS[H], H.title(), OTHER_TOKEN[H])) if forgetful else
                   "after an element of %s has matched on one field line the request can still be refused (%d error exit(s) reachable): a match is forgotten when a later "
                   "line does not match, so `%s: %s` followed by a `%s: %s` line is answered 400" % (H, len(lost_exits), H.title(), TOKENS[H], H.title(), OTHER_TOKEN[H]),
                   (b, lost_exits[0] if lost_exits else gbb))
@@ -592,16 +665,16 @@ def x5_list_headers(ctx):
         for t in tests:
             ans = {44: False, 32: False, 9: False}
             undecided = False
-            hops = element_hops(ctx.dsn, t["chain"])
+            hops = element_hops(_view(ctx), t["chain"])
             for g, sbb, stt in chain_calls(hops, SPLIT):
-                a = separator_answers(ctx.dsn, g, stt, [44, 32, 9])
+                a = separator_answers(_view(ctx), g, stt, [44, 32, 9])
                 for ch, v in a.items():
                     if v is None:
                         undecided = True
                     ans[ch] = ans[ch] or bool(v)
             trims = bool(chain_calls(hops, TRIM)) or any(re.search(TRIM, p) for _, _, _, p in chain_fnitems(hops))
             for g, tbb, tt in chain_calls(hops, r"str::<impl str>::trim_matches$"):
-                a = pattern_answers(ctx.dsn, g, tt["args"][1], [32, 9]) if len(tt["args"]) > 1 else {}
+                a = pattern_answers(_view(ctx), g, tt["args"][1], [32, 9]) if len(tt["args"]) > 1 else {}
                 trims = trims or (a.get(32) is True and a.get(9) is True)
             ok = ans[44] and (trims or (ans[32] and ans[9]))
             ok_all = ok_all and ok
@@ -856,6 +929,124 @@ SELFTEST = [
                (WS, "            })\n        {\n            return Err(HttpError::for_bad_request(\n                None,\n                \"expected connection upgrade\".to_string(),\n            ));\n        }",
                 "            })\n        {\n            match () {\n                () => return Err(HttpError::for_bad_request(\n                    None,\n                    \"expected connection upgrade\".to_string(),\n                )),\n            }\n        }")],
      "why": "behaviour-preserving: a log line on the accept path, the early return wrapped in a match"},
+]
+
+# ---- round-3 idioms
+_CONN_IF = """        if !request
+            .headers()
+            .get_all(header::CONNECTION)
+            .iter()
+            .filter_map(|hv| hv.to_str().ok())
+            .any(|hv| {
+                hv.split(|c| c == ',' || c == ' ' || c == '\\t')
+                    .any(|vs| vs.eq_ignore_ascii_case("upgrade"))
+            })
+        {
+            return Err(HttpError::for_bad_request(
+                None,
+                "expected connection upgrade".to_string(),
+            ));
+        }
+"""
+_UPG_IF = """        if !request
+            .headers()
+            .get_all(header::UPGRADE)
+            .iter()
+            .filter_map(|v| v.to_str().ok())
+            .any(|v| {
+                v.split(|c| c == ',' || c == ' ' || c == '\\t')
+                    .any(|v| v.eq_ignore_ascii_case("websocket"))
+            })
+        {
+            return Err(HttpError::for_bad_request(
+                None,
+                "unexpected protocol for upgrade".to_string(),
+            ));
+        }
+"""
+
+
+def _local_closure_form(init="false", acc="found || ", upgrade_arm=None, seps="[',', ' ', '\\t']", n=3):
+    """Both list checks through one local closure called twice, `fold` for `any`, a named constant array as the split pattern and
+    one `match` over the pair of flags (the shape of benign-C20-R10)."""
+    arm = upgrade_arm if upgrade_arm is not None else """{
+                return Err(HttpError::for_bad_request(
+                    None,
+                    "unexpected protocol for upgrade".to_string(),
+                ));
+            }"""
+    return """        const SEPARATORS: [char; %d] = %s;
+        let list_names_token = |name: &header::HeaderName, wanted: &str| {
+            request
+                .headers()
+                .get_all(name)
+                .iter()
+                .filter_map(|line| line.to_str().ok())
+                .fold(%s, |found, line| {
+                    let _ = found;
+                    %sline.split(SEPARATORS).any(|e| e.eq_ignore_ascii_case(wanted))
+                })
+        };
+        let asks_for_upgrade = list_names_token(&header::CONNECTION, "upgrade");
+        let asks_for_websocket = list_names_token(&header::UPGRADE, "websocket");
+        match (asks_for_upgrade, asks_for_websocket) {
+            (true, true) => {}
+            (false, _) => {
+                return Err(HttpError::for_bad_request(
+                    None,
+                    "expected connection upgrade".to_string(),
+                ));
+            }
+            (true, false) => %s
+        }
+""" % (n, seps, init, acc, arm)
+
+
+_VER_ERR = """            return Err(HttpError::for_bad_request(
+                None,
+                "missing or invalid websocket version".to_string(),
+            ));"""
+_EXTRACTOR_DOC = "/// This `ExclusiveExtractor` implementation constructs"
+
+
+def _from_impl(ctor):
+    return ("struct BadHandshake(&'static str);\n\nimpl From<BadHandshake> for HttpError {\n    fn from(defect: BadHandshake) -> Self {\n        %s\n    }\n}\n\n" % ctor) + _EXTRACTOR_DOC
+
+
+_RENAME = [(WS, "fn derive_accept_key(request_key: &[u8]) -> String {", "fn accept_key_for(request_key: &[u8]) -> String {")]
+_PREFIX_BODY = ("    let mut hasher = Sha1::new_with_prefix(request_key);\n    Digest::update(&mut hasher, WS_GUID);\n    let digest = hasher.finalize();\n"
+                "    let mut text = %s;\n    base64::engine::general_purpose::STANDARD.encode_string(digest, &mut text);\n    text")
+
+SELFTEST += [
+    {"name": "list-checks-local-closure-fold-tuple-match", "kind": "benign", "edits": [(WS, _CONN_IF + "\n" + _UPG_IF, _local_closure_form())],
+     "why": "behaviour-preserving: one local closure called with (header, token) for both list checks (inlined at its two call sites by lib_c20.local_view), "
+            "`fold(false, |found, l| found || test(l))` for `any`, a constant [char; 3] as the split pattern, one match over the pair of flags"},
+    {"name": "list-checks-fold-starts-true", "kind": "mutant", "edits": [(WS, _CONN_IF + "\n" + _UPG_IF, _local_closure_form(init="true"))],
+     "expect": ["C20.R1"], "why": "the fold over the field lines starts from true: a request without Connection / Upgrade headers is upgraded"},
+    {"name": "list-checks-fold-forgets-match", "kind": "mutant", "edits": [(WS, _CONN_IF + "\n" + _UPG_IF, _local_closure_form(acc=""))],
+     "expect": ["C20.X5"], "why": "the fold closure ignores its accumulator: the last field line decides, `Upgrade: websocket` followed by `Upgrade: h2c` is refused"},
+    {"name": "list-checks-tuple-match-upgrade-arm-accepts", "kind": "mutant", "edits": [(WS, _CONN_IF + "\n" + _UPG_IF, _local_closure_form(upgrade_arm="{}"))],
+     "expect": ["C20.R1"], "why": "the (true, false) arm of the match over the two flags falls through: a request without `Upgrade: websocket` is upgraded"},
+    {"name": "list-checks-const-separators-without-htab", "kind": "mutant", "edits": [(WS, _CONN_IF + "\n" + _UPG_IF, _local_closure_form(seps="[',', ' ']", n=2))],
+     "expect": ["C20.X5"], "why": "the constant separator table lacks HTAB: `Connection: keep-alive,<TAB>upgrade` is refused"},
+    {"name": "bad-request-through-from-impl", "kind": "benign",
+     "edits": [(WS, _EXTRACTOR_DOC, _from_impl("HttpError::for_bad_request(None, defect.0.to_string())")), (WS, _VER_ERR, '            return Err(BadHandshake("missing or invalid websocket version").into());')],
+     "why": "behaviour-preserving: the 400 is built inside a hand-written `impl From<BadHandshake> for HttpError` reached by `.into()` (the conversion is resolved to the impl and judged by what it returns)"},
+    {"name": "from-impl-builds-500", "kind": "mutant",
+     "edits": [(WS, _EXTRACTOR_DOC, _from_impl("HttpError::for_internal_error(defect.0.to_string())")), (WS, _VER_ERR, '            return Err(BadHandshake("missing or invalid websocket version").into());')],
+     "expect": ["C20.R1"], "why": "the conversion builds a 500: a handshake with a wrong version is answered with a server error"},
+    {"name": "digest-fn-renamed-and-inlined", "kind": "benign", "edits": _RENAME + [(WS, ".map(|key| derive_accept_key(key))", ".map(|key| accept_key_for(key))")],
+     "why": "behaviour-preserving: the digest function has another name (a function that is not on the known-functions table is inlined into from_request: the rule anchors on the SHA-1 digest, not on a name)"},
+    {"name": "digest-inlined-guid-first", "kind": "mutant", "edits": _RENAME + [(WS, ".map(|key| derive_accept_key(key))", ".map(|key| accept_key_for(key))"), (WS, _UPDATES, "    sha1.update(WS_GUID);\n    sha1.update(request_key);")],
+     "expect": ["C20.R2"], "why": "digest of GUID ++ key, in a renamed (hence inlined) digest function"},
+    {"name": "digest-inlined-key-lowercased", "kind": "mutant", "edits": _RENAME + [(WS, ".map(|key| derive_accept_key(key))", ".map(|key| accept_key_for(&key.to_ascii_lowercase()))")],
+     "expect": ["C20.R2"], "why": "the hashed key is not the raw bytes of the header (base64 keys are case-sensitive), in the inlined form"},
+    {"name": "sha1-prefix-and-encode-string", "kind": "benign", "edits": [(WS, _SHA_BODY, _PREFIX_BODY % "String::with_capacity(28)")],
+     "why": "behaviour-preserving: Sha1::new_with_prefix(key) for a fresh state + update(key), then update(GUID); the digest is encoded by encode_string into a fresh String that is returned"},
+    {"name": "encode-string-into-nonempty-string", "kind": "mutant", "edits": [(WS, _SHA_BODY, _PREFIX_BODY % 'String::from("=")')],
+     "expect": ["C20.R2"], "why": "encode_string appends to a String that is not empty: the accept value has a spurious prefix"},
+    {"name": "sha1-prefix-is-the-guid", "kind": "mutant", "edits": [(WS, _SHA_BODY, (_PREFIX_BODY % "String::new()").replace("new_with_prefix(request_key)", "new_with_prefix(WS_GUID)").replace("&mut hasher, WS_GUID", "&mut hasher, request_key"))],
+     "expect": ["C20.R2"], "why": "digest of GUID ++ key, written with new_with_prefix"},
 ]
 
 LEVEL_TEXT += ' Also (X5): every field line of the list-valued handshake headers is consulted (get_all, and a match found on one line cannot be lost on a later one) and SP/HTAB are list whitespace (the separator pattern is evaluated concretely); (R6): plain and TLS connections are both served with upgrade support.'
